@@ -264,7 +264,7 @@ fn snapshot(prog: &[S], lay: &Layout) -> Result<Snapshot, String> {
 // and - when clean - the same graph.  (A re-layout of valid programs alone never separates two
 // punctuation characters that would be a syntax error when separated by a blank.)
 
-const TOK_EXTRA: &[&str] = &["ns", "im", "dt", "b", "q", "0x1F", "2", "3", "x", "true", "pi", "$1", "\"1_0\"", "'01'", "1e3", "2.", ".5"];
+const TOK_EXTRA: &[&str] = &["ns", "im", "dt", "us", "µs", "b", "q", "0x1F", "2", "3", "x", "true", "pi", "$1", "\"1_0\"", "'01'", "1e3", "2.", ".5", "10", ".25", "ns", "im"];
 const TOK_SEPS_B: &[&str] = &["/**/", " /* c */ ", "\n", "\t", "  ", "/* a *//* b */", "//x\n", " /***/ ", "/*/ y */"];
 
 fn tok_alphabet() -> Vec<String> {
@@ -317,6 +317,22 @@ fn token_relayout_case(seed: u64, obs: &mut Obs) {
         }
         b.push_str(t);
     }
+    // third layout: a unit directly after a decimal number needs no separator at all
+    let is_unit = |t: &str| matches!(t, "ns" | "im" | "dt" | "us" | "ms" | "s" | "µs");
+    let is_dec_number = |t: &str| t.starts_with(|c: char| c.is_ascii_digit() || c == '.') && !t.starts_with("0x") && t.len() <= 4 && t != ".";
+    let mut glued = String::new();
+    let mut any_glued = false;
+    for (i, t) in toks.iter().enumerate() {
+        if i > 0 {
+            if is_unit(t) && is_dec_number(&toks[i - 1]) {
+                any_glued = true;
+            } else {
+                glued.push(' ');
+            }
+        }
+        glued.push_str(t);
+    }
+    let b = if any_glued && r.bool() { glued } else { b };
     obs.fp.str(&a);
     let cellkey = |what: &str| format!("token-relayout/{what}");
     let r1 = guard(|| (tree_skeleton(&a), tree_skeleton(&b)));
